@@ -65,7 +65,7 @@ def run_property(prop, tier, seed, prop_file, corr_mod, check_fn, profiles, n_qu
         scenarios = list(forced or [])
         while len(scenarios) < n:
             prof = rnd.choice(profiles)
-            scenarios.append(m5.Gen(rnd, prof).gen(rnd.randint(12, 45)))
+            scenarios.append(m5.Gen(rnd, prof).gen(rnd.randint(*prof.get("actions", (12, 45)))))
         harness_ok, gout, outs = m5.run_scenarios(work, scenarios)
         results = eval_traces(work, outs, corr_mod, check_fn, prop) if (harness_ok and ok) else []
         known_listed = {e["id"] for e in known_findings(prop)}
@@ -113,7 +113,10 @@ def run_property(prop, tier, seed, prop_file, corr_mod, check_fn, profiles, n_qu
             extra_found = None
             for extra in range(1, 4):
                 rnd2 = random.Random(seed * 7919 + extra)
-                sc2 = [m5.Gen(rnd2, rnd2.choice(profiles)).gen(rnd2.randint(12, 45)) for _ in range(n)]
+                sc2 = []
+                for _ in range(n):
+                    prof2 = rnd2.choice(profiles)
+                    sc2.append(m5.Gen(rnd2, prof2).gen(rnd2.randint(*prof2.get("actions", (12, 45)))))
                 ok2, _, outs2 = m5.run_scenarios(work, sc2)
                 if not ok2:
                     break
